@@ -50,8 +50,9 @@ def run(gverif, gmodel, work, mode="threaded", timeout_s=60):
         res = r.get("results")
         dbsx = sqlgen.sx_db(w["tables"])
         for (q, cfg), p in zip(w["runs"], pos):
-            rec = {"case": w["id"], "q": q, "cfg": cfg, "verdict": None,
-                   "stmts": c["stmts"][:nsetup] + cfg_stmts(cfg) + [q.sql], "mode": c["mode"]}
+            rec = {"case": w["id"], "q": q, "cfg": cfg, "verdict": None, "dbsx": dbsx,
+                   "stmts": c["stmts"][:nsetup] + cfg_stmts(cfg) + [q.sql], "mode": c["mode"],
+                   "run": {k: c[k] for k in ("mode", "threads", "partitions", "sched") if k in c}}
             records.append(rec)
             if res is None:
                 rec["engine"] = r
@@ -114,4 +115,37 @@ def replay_of(rec):
             "classes": sorted(rec["q"].classes), "outcome": rec["outcome"], "model_verdict": rec["verdict"],
             "engine": rec["engine"] if not isinstance(rec["engine"], dict) or len(json.dumps(rec["engine"])) < 4000
             else {k: (v if k != "rows" else v[:40]) for k, v in rec["engine"].items()},
-            "stmts": rec["stmts"]}
+            "stmts": rec["stmts"], "dbsx": rec.get("dbsx"), "run": rec.get("run")}
+
+
+def replay(ctx, payload):
+    """./check Cnn --replay file: run the recorded statements again on the current tree and judge the last
+    statement's answer with the extracted reference semantics.  exit 1 (VIOLATION printed) if it still fails."""
+    pid = payload.get("property", "C01")
+    r = payload.get("replay", {})
+    if not isinstance(r, dict) or "stmts" not in r:
+        print("replay: no statements recorded (%s)" % str(r)[:300])
+        return 1
+    gverif, _ = common.build_harness(bin="gverif")
+    gmodel = common.build_ocaml("sql")
+    case = dict(r.get("run") or {"mode": "det", "partitions": 2, "sched": {"kind": "fifo", "seed": 1}})
+    case.update({"id": "replay", "stmts": r["stmts"], "timeout_s": 60})
+    out = common.run_harness(gverif, "sql", [case], timeout=600)[0]
+    res = out.get("results")
+    last = res[-1] if res else out
+    print("engine:", json.dumps(last)[:1500])
+    bad = True
+    if res and len(res) == len(r["stmts"]) and last.get("ok") and r.get("dbsx") and r.get("ast"):
+        got = "(" + " ".join("(" + " ".join(cell_sx(x) for x in row) + ")" for row in last["rows"]) + ")"
+        v = common.run_model(gmodel, "x", ["(check %s %s %s)" % (r["dbsx"], r["ast"], got)])[0]
+        print("reference semantics verdict:", v)
+        bad = v != "OK"
+    elif res and not last.get("ok") and r.get("dbsx") and r.get("ast") and "err" in last:
+        v = common.run_model(gmodel, "x", ["(eval %s %s)" % (r["dbsx"], r["ast"])])[0]
+        print("reference semantics:", v[:300])
+        bad = not v.startswith("ERR")
+    if bad:
+        print("VIOLATION property=%s replay=%s" % (pid, ctx.get("replay")))
+        return 1
+    print("replay: the recorded case now agrees with the reference semantics")
+    return 0
